@@ -7,7 +7,7 @@ PROPS=${*:-C01 C02 C03 C04 C05 C06 C07 C08 C09 C10 C11 C12 C13 C14 C15 C16 C17 C
 cd /verif
 trap 'git -C /repo checkout -- . ; echo "[reverted /repo]"' EXIT INT TERM
 git -C /repo diff --quiet || { echo "/repo is dirty"; exit 2; }
-git -C /repo apply "seeded/$ID/patch.diff" || { echo "patch does not apply"; exit 2; }
+git -C /repo apply "/verif/seeded/$ID/patch.diff" || { echo "patch does not apply"; exit 2; }
 echo "== repo suite with the change"
 ( cd /repo && cargo test --workspace --no-fail-fast --offline 2>&1 | grep -E "^test result|FAILED|failed|^error" | sort | uniq -c )
 CAUGHT=""
